@@ -1362,7 +1362,7 @@ class Parser:
         try:
             # first parse compiler options
             defs_path = pathlib.Path(msgdefs_file)
-            self.root_path = defs_path.parent.resolve()
+            self.root_path = defs_path.resolve().parent
             self.parse_options(defs_path)
         except Exception as e:
             self.clear()
@@ -1383,7 +1383,7 @@ class Parser:
                 self.parse_file(core_defs.absolute())
 
             defs_path = pathlib.Path(msgdefs_file)
-            self.root_path = defs_path.parent.resolve()
+            self.root_path = defs_path.resolve().parent
             self.parse_file(defs_path)
         except Exception as e:
             self.clear()
